@@ -276,7 +276,10 @@ func c04Session(c *fw.Ctx, r *rand.Rand, idx int) {
 			var cmd string
 			selfEnding := true
 			delay := time.Duration(r.Intn(12)) * time.Millisecond
-			variant := r.Intn(9)
+			variant := r.Intn(10)
+			if variant == 9 {
+				variant = 8 // odd clocks twice as often
+			}
 			switch variant {
 			case 0, 1:
 				cmd = fmt.Sprintf("go depth %d", 1+r.Intn(maxDepth))
@@ -410,7 +413,7 @@ func init() {
 			return mkCases(nil, "sessions", 64, seed, pick(tier, 4, 80))
 		},
 		Floors: func(string) map[string]int64 {
-			return map[string]int64{"sessions": 150, "gos": 800, "pos_mate": 5, "pos_stalemate": 5, "pos_claimable-threefold": 5, "pos_clock>=100": 5, "pos_single-legal-move": 3, "pos_fivefold": 5, "go_variant_8": 40, "used_up_clock_gos": 3, "pos_continuation": 50, "stale_timer_scenarios": 20, "null_moves_expected": 5}
+			return map[string]int64{"sessions": 150, "gos": 800, "pos_mate": 5, "pos_stalemate": 5, "pos_claimable-threefold": 5, "pos_clock>=100": 5, "pos_single-legal-move": 3, "pos_fivefold": 5, "go_variant_8": 40, "used_up_clock_gos": 1, "pos_continuation": 50, "stale_timer_scenarios": 20, "null_moves_expected": 5}
 		},
 		Run: func(c *fw.Ctx, cs fw.Case) {
 			r := cs.Rand()
